@@ -30,7 +30,22 @@ def _c01b(tree, ob):
     return c01b(tree, ob)
 
 
+def _tls_pending(tree, ob):
+    ''' One recv() per io callback is enough on a plain socket (the descriptor stays readable).  An SSL object decrypts a
+    whole record at once; what is left of it after one recv() is in user space and never makes the descriptor readable:
+    the callback must drain pending() before it returns. '''
+    fv = FuncView(tree, SESS, 'Connection._rx_proxy')
+    loops = [n for n in walk_local(fv.func) if isinstance(n, ast.While) and 'pending()' in src(n.test)]
+    ok = any(method_calls(lp, 'recv_raw', 'self') and any(isinstance(c.func, ast.Attribute) and c.func.attr == 'recv' for c in calls_in(lp)) for lp in loops)
+    if ok:
+        ob.site(SESS, loops[0], '_rx_proxy drains what the SSL object already holds')
+    else:
+        ob.violate(SESS, fv.qual, 'one sock.recv() per io callback', 'over TLS the tail of a record larger than one chunk stays inside the SSL object and does not make the descriptor readable: a complete '
+                   'message is acted on only when unrelated later traffic arrives (or never)', fv.func)
+
+
 def c07a(tree, ob):
+    _tls_pending(tree, ob)
     fv = FuncView(tree, SESS, 'Messenger.recv_raw')
     func = fv.func
     loops = [n for n in walk_local(func) if isinstance(n, ast.While)]
